@@ -5,7 +5,6 @@ use byteorder::{BigEndian, ByteOrder};
 
 use crate::compress::*;
 use crate::constants::*;
-use crate::dns_sector::*;
 use crate::errors::*;
 use crate::parsed_packet::*;
 
@@ -259,7 +258,8 @@ pub trait TypedIterable {
     where
         Self: DNSIterable,
     {
-        let new_name_len = DNSSector::check_uncompressed_name(name, 0)?;
+        // the same name policy as the parser, so that the packet stays parseable
+        let new_name_len = Compress::check_compressed_name(name, 0)?;
         let name = &name[..new_name_len];
         if self.parsed_packet().maybe_compressed {
             let (uncompressed, new_offset) = {
